@@ -38,7 +38,7 @@ def direct_validation_leg(tier, seed):
     q = tier == "quick"
     sc = core.Scratch("C19vl")
     try:
-        r_mc = core.run_tlc("Validation", VL_CFG % (6 if q else 7, 3, "FALSE"), sc, workers=core.NCPU, tag="MC_Validation")
+        r_mc = core.run_tlc("Validation", VL_CFG % (6 if q else 7, 3, "FALSE"), sc, workers=core.NCPU, tag="MC_Validation", coverage=True)
         core.tlc_must_pass(r_mc, "MC_Validation")
         r_em = core.run_tlc("Validation", VL_CFG % (4 if q else 6, 2 if q else 3, "TRUE"), sc, workers=1, tag="Emit_Validation")
         core.tlc_must_pass(r_em, "Emit_Validation")
